@@ -283,7 +283,7 @@ def run(ctx):
     shapes = [(2, 3), (3, 3)] if quick else [(2, 3), (3, 3), (3, 4), (4, 3)]
     res = ctx.tlc("Translation", CFG_MC, defs="MCShapes == {" + ", ".join(f"<<{a},{b}>>" for a, b in shapes) + "}\nMCOrigins == {-6, 0, 2, 10}\nMCShifts == {-6, -2, 0, 4}", tag="MC_Translation", timeout=1500)
     ctx.exhaustive = True
-    n_inst = 40 if quick else 400
+    n_inst = 40 if quick else 3000
     insts = []
     for k in range(n_inst):
         h, w = int(rng.integers(7, 11)), int(rng.integers(7, 11))
